@@ -15,21 +15,22 @@ Inductive op :=
 
 Definition enc_tok (m:tokn) : list N := let '(t,s,e) := m in [t; N.of_nat s; N.of_nat e].
 Definition PANIC_CODE : N := 999999%N.
+Definition NOT_WF_CODE : N := 777777%N.   (* a dumped automaton violates mode_okb *)
 
 Section Run.
-Variable tbl : N -> N -> bool.
+Variable sc : scanner.
 
 (* one operation: new state and encoded output; None = panic *)
 Definition step_op (st:iter) (o:op) : option (iter * list N) :=
   match o with
   | ONext =>
-      match next_match tbl st with
+      match next_match sc st with
       | Panic => None
       | Ok (st', None) => Some (st', [0%N])
       | Ok (st', Some m) => Some (st', 1%N :: enc_tok m)
       end
   | ONextPos =>
-      match next_match tbl st with
+      match next_match sc st with
       | Panic => None
       | Ok (st', None) => Some (st', [0%N])
       | Ok (st', Some (t,s,e)) =>
@@ -40,7 +41,7 @@ Definition step_op (st:iter) (o:op) : option (iter * list N) :=
           end
       end
   | OPeek n =>
-      match peek_n tbl st n with
+      match peek_n sc st n with
       | Panic => None
       | Ok (PMatches ms) => Some (st, 1%N :: N.of_nat (length ms) :: flat_map enc_tok ms)
       | Ok (PReachedEnd ms) => Some (st, 2%N :: N.of_nat (length ms) :: flat_map enc_tok ms)
@@ -92,4 +93,6 @@ Definition op_of (o:nop) : op :=
 
 Definition run_case (cls:list (N * list N)) (modes:list cmode) (scanner_mode:N) (input:list N) (ops:list nop)
   : list (list N) :=
-  run_ops (tbl_of cls) (find_iter modes (N.to_nat scanner_mode) input) (map op_of ops).
+  if forallb (fun cm => mode_okb (aut cm)) modes
+  then run_ops (impl_scanner (tbl_of cls) modes) (find_iter (N.to_nat scanner_mode) input) (map op_of ops)
+  else [[NOT_WF_CODE]].
